@@ -17,12 +17,25 @@ package post
 // post.Encode: every narrowing conversion must be lossless ("encoder"): the
 // 16-bit glyph count, the 16-bit name indices (258+k for the k-th custom
 // name) and the 8-bit Pascal string lengths.
-//@ func (info *Info) Encode() (res []byte)   props: C14 C01
+// Header (32 bytes): version at 0 (3.0 without names, 1.0 only for the
+// standard Macintosh order, else 2.0), underlinePosition at 8,
+// underlineThickness at 10, isFixedPitch at 12; format 2.0 continues with the
+// glyph count at 32 and one 16-bit name index per glyph.
+//@ spec u16(x int) int = ite(x < 0, x + 65536, x)
+//@ pred hdr(b *bytes.Buffer, info *Info, version int) = bdata(b)[0]*16777216 + bdata(b)[1]*65536 + bdata(b)[2]*256 + bdata(b)[3] == version && bdata(b)[8]*256 + bdata(b)[9] == u16(info.UnderlinePosition) && bdata(b)[10]*256 + bdata(b)[11] == u16(info.UnderlineThickness) && bdata(b)[12] == 0 && bdata(b)[13] == 0 && bdata(b)[14] == 0 && bdata(b)[15] == ite(info.IsFixedPitch, 1, 0)
+//@ func (info *Info) Encode() (res []byte)   props: C14 C01 C12
 //@   encoder
 //@   requires info != nil && len(info.Names) <= 65535 && len(macRoman) == 258
+//@   ensures len(res) >= 32 && be16(res, 8) == u16(info.UnderlinePosition) && be16(res, 10) == u16(info.UnderlineThickness) && be32(res, 12) == ite(info.IsFixedPitch, 1, 0)
+//@   ensures info.Names == nil ==> be32(res, 0) == 196608 && len(res) == 32
+//@   ensures info.Names != nil ==> be32(res, 0) == 65536 || be32(res, 0) == 131072
+//@   ensures be32(res, 0) == 65536 ==> len(res) == 32 && len(info.Names) == 258 && forall i int :: 0 <= i && i < 258 ==> info.Names[i] == macRoman[i]
+//@   ensures be32(res, 0) == 131072 ==> len(res) >= 34 + 2*len(info.Names) && be16(res, 32) == len(info.Names)
 //@   modifies nothing
 //@   loop 0
 //@     invariant mac != nil && fresh(mac) && buf != nil && fresh(buf) && forall s string :: has(mac, s) ==> 0 <= mac[s] && mac[s] < 258
+//@     invariant blen(buf) == 34 && hdr(buf, info, 131072) && bdata(buf)[32]*256 + bdata(buf)[33] == len(info.Names)
 //@   loop 1
+//@     invariant blen(buf) == 34 + 2*iter && hdr(buf, info, 131072) && bdata(buf)[32]*256 + bdata(buf)[33] == len(info.Names)
 //@     invariant mac != nil && buf != nil && fresh(buf) && 0 <= numStrings && numStrings <= iter && (isnil(stringData) || fresh(stringData)) && numGlyphs == len(info.Names)
 //@     invariant forall s string :: has(mac, s) ==> 0 <= mac[s] && mac[s] < 258
